@@ -7,6 +7,7 @@ import TfelVerif.C02.Spec
 namespace TfelVerif.C02
 open TfelVerif TfelVerif.Mandel
 variable {K : Type} [Field K]
+set_option linter.unusedSectionVars false
 
 /-- unfold generated definitions and the specification vocabulary down to field expressions -/
 macro "t4_unfold" : tactic =>
@@ -29,7 +30,7 @@ macro "t4_unfold" : tactic =>
       -- explicit 3×3 matrices (Common/M3)
       M3.mandel3, M3.mandel2, M3.mandel1, M3.ofMandel, M3.tens3, M3.tens2, M3.tens1,
       M3.ofTens, M3.sym, M3.diag, M3.mul_def, M3.mul, M3.one_def, M3.one, M3.add_def, M3.add, M3.sub_def, M3.sub,
-      M3.smul_def, M3.smul, M3.transpose, M3.outer, M3.trace, M3.det, M3.frob, M3.mk.injEq,
+      M3.smul_def, M3.smul, M3.transpose, M3.plane, M3.rowMajor, M3.outer, M3.trace, M3.det, M3.frob, M3.mk.injEq,
       List.cons.injEq, and_true, true_and])
 
 /-- `t4_eq hc`: equality of a generated list with the storage of its index-notation specification,
@@ -98,7 +99,8 @@ theorem app_KS (h2 : (2 : K) ≠ 0) (h3 : (3 : K) ≠ 0) (A : T2 K) (hA : ∀ i 
   funext i j
   have e01 := hA 0 1; have e02 := hA 0 2; have e12 := hA 1 2
   fin_cases i <;> fin_cases j <;> simp [T4.app, T4.KS, T4.idS, T4.J, T2.trace, sum3, delta] <;> field_simp <;>
-    first | ring | (rw [e01]; ring) | (rw [e02]; ring) | (rw [e12]; ring)
+    first | ring1 | linear_combination (-1 : K) * e01 | linear_combination e01 | linear_combination (-1 : K) * e02
+          | linear_combination e02 | linear_combination (-1 : K) * e12 | linear_combination e12
 theorem KS_add_J (C : T4 K) : (fun i j k l => T4.KS i j k l + T4.J i j k l : T4 K) = T4.idS := by
   funext i j k l; simp [T4.KS]
 /-- `rot R : A = Rᵀ A R`, `pushForward F (A ⊗ B) = (F A Fᵀ) ⊗ (F B Fᵀ)` -/
@@ -110,9 +112,9 @@ theorem pushForward_dyad (F A B : T2 K) :
   funext i j k l; simp only [T4.pushForward, T2.dyad, T2.mul, T2.transpose, sum3]; ring
 /-- `tpld B : X = X B`, `tprd A : X = A X` -/
 theorem app_tpld (B X : T2 K) : T4.app (T4.tpld B) X = T2.mul X B := by
-  funext i j; fin_cases i <;> simp [T4.app, T4.tpld, T2.mul, sum3, delta]
+  funext i j; fin_cases i <;> simp [T4.app, T4.tpld, T2.mul, sum3, delta] <;> ring
 theorem app_tprd (A X : T2 K) : T4.app (T4.tprd A) X = T2.mul A X := by
-  funext i j; fin_cases j <;> simp [T4.app, T4.tprd, T2.mul, sum3, delta]
+  funext i j; fin_cases j <;> simp [T4.app, T4.tprd, T2.mul, sum3, delta] <;> ring
 /-- `dCdF F : X = Xᵀ F + Fᵀ X`, `dBdF F : X = X Fᵀ + F Xᵀ` -/
 theorem app_dCdF (F X : T2 K) :
     T4.app (T4.dCdF F) X = fun i j => T2.mul (T2.transpose X) F i j + T2.mul (T2.transpose F) X i j := by
